@@ -9,6 +9,9 @@ one spelling also sees the other:
         (for the numbers and strings the accumulators of this code base hold, the two are the same operation)
   N4  `x: T = e` on a plain local inside a function        ->  `x = e`        (the annotation of a local is never evaluated)
   N5  `if c: ... <jump>` with an else arm                   ->  the else arm follows the if (no else after return/raise/continue/break)
+  N8  a new local bound once to an access path and only read afterwards (`entry = table[key]`) -> its reads are the path again
+  N10 `x = []` + a loop whose whole body appends to x (optionally under ifs / nested single-statement loops) -> the list / set / dict comprehension
+  N9  a new local bound once and read once, in the next statement, before any other call of it -> the expression moves back to the read
   N6  `f(a, y=b)` where y is the next positional parameter of the project function f  ->  `f(a, b)`   (done in Project, needs name resolution)
   N3  a loop body ending in `if not c: <rest>` (no else)    ->  `if c: continue` followed by <rest>
         and a loop body ending in `if c: <rest>` (no else, <rest> longer than one statement and containing no `continue`-free
@@ -109,8 +112,306 @@ def _n5(body: List[ast.stmt], stats) -> List[ast.stmt]:
     return out
 
 
-def normalise(tree: ast.AST) -> Dict[str, int]:
+def _is_path(e) -> bool:
+    """a side-effect-free access path: name, attribute chain, subscripts by such paths or constants"""
+    if isinstance(e, (ast.Name, ast.Constant)):
+        return True
+    if isinstance(e, ast.Attribute):
+        return _is_path(e.value)
+    if isinstance(e, ast.Subscript):
+        return _is_path(e.value) and _is_path(e.slice)
+    return False
+
+
+def _clone(n):
+    if isinstance(n, ast.AST):
+        new = type(n)()
+        for f in n._fields:
+            if hasattr(n, f):
+                setattr(new, f, _clone(getattr(n, f)))
+        for a in ('lineno', 'col_offset', 'end_lineno', 'end_col_offset'):
+            if hasattr(n, a):
+                setattr(new, a, getattr(n, a))
+        return new
+    if isinstance(n, list):
+        return [_clone(x) for x in n]
+    return n
+
+
+def _n8(fnode, known_locals: set, stats) -> None:
+    """N8: a *new* local (unknown to the reference vocabulary) that is bound once to an access path (`entry = table[key]`) and only read
+    afterwards in the same block is an alias: its reads are replaced by the path.  Nothing the path mentions may be rebound, and nothing
+    may be stored under the path's own container, between the binding and the reads.  The binding statement stays (its evaluation may
+    create a defaultdict entry, exactly as the first access did before)."""
+    nested = _nested_names(fnode)
+    binds: Dict[str, int] = {}
+    for n in ast.walk(fnode):
+        if isinstance(n, ast.Name) and isinstance(n.ctx, (ast.Store, ast.Del)):
+            binds[n.id] = binds.get(n.id, 0) + 1
+    params = {a.arg for a in fnode.args.args + fnode.args.kwonlyargs + fnode.args.posonlyargs}
+
+    def do_block(body: List[ast.stmt]) -> None:
+        for i, st in enumerate(body):
+            if (isinstance(st, ast.Assign) and len(st.targets) == 1 and isinstance(st.targets[0], ast.Name) and isinstance(st.value, (ast.Subscript, ast.Attribute))
+                    and _is_path(st.value)):
+                a = st.targets[0].id
+                if a in known_locals or a in params or a in nested or binds.get(a) != 1:
+                    continue
+                rest = body[i + 1:]
+                mentioned = {x.id for x in ast.walk(st.value) if isinstance(x, ast.Name)}
+                # every read of the alias must be in the rest of this block
+                reads_total = sum(1 for x in ast.walk(fnode) if isinstance(x, ast.Name) and x.id == a and isinstance(x.ctx, ast.Load))
+                reads_rest = sum(1 for r in rest for x in ast.walk(r) if isinstance(x, ast.Name) and x.id == a and isinstance(x.ctx, ast.Load))
+                if reads_total == 0 or reads_total != reads_rest:
+                    continue
+                root = st.value
+                while isinstance(root, (ast.Subscript, ast.Attribute)):
+                    root = root.value
+                ok = True
+                path_dump = ast.dump(st.value)
+                for r in rest:
+                    for x in ast.walk(r):
+                        if isinstance(x, ast.Name) and isinstance(x.ctx, (ast.Store, ast.Del)) and x.id in mentioned:
+                            ok = False
+                        # a store that replaces the aliased object itself: <path> = … / del <path>
+                        if isinstance(x, (ast.Subscript, ast.Attribute)) and isinstance(x.ctx, (ast.Store, ast.Del)) and ast.dump(x).replace('Store()', 'Load()').replace('Del()', 'Load()') == path_dump:
+                            ok = False
+                if not ok:
+                    continue
+
+                class R(ast.NodeTransformer):
+                    def visit_Name(self, node):
+                        if node.id == a and isinstance(node.ctx, ast.Load):
+                            return ast.copy_location(_clone(st.value), node)
+                        return node
+                for k in range(i + 1, len(body)):
+                    body[k] = R().visit(body[k])
+                stats['N8'] = stats.get('N8', 0) + 1
+        for st in body:
+            if isinstance(st, (ast.FunctionDef, ast.AsyncFunctionDef, ast.ClassDef)):
+                continue
+            for fld in ('body', 'orelse', 'finalbody'):
+                b = getattr(st, fld, None)
+                if isinstance(b, list) and b and isinstance(b[0], ast.stmt):
+                    do_block(b)
+            for h in getattr(st, 'handlers', []) or []:
+                do_block(h.body)
+    do_block(fnode.body)
+
+
+def _n10(body: List[ast.stmt], stats) -> List[ast.stmt]:
+    """N10: the accumulate-in-a-loop idiom becomes the comprehension it spells out:
+         x = [] ; for v in IT: [if C:] x.append(E)      ->  x = [E for v in IT if C]
+         x = set() ; for …: [if C:] x.add(E)             ->  x = {E for …}
+         x = {} ; for …: [if C:] x[K] = V                ->  x = {K: V for …}
+       (adjacent statements, no else, the loop body is that single statement, x is not read in IT / C / E / K / V, nested single-statement
+       loops become further `for` clauses)."""
+    out: List[ast.stmt] = []
+    i = 0
+    while i < len(body):
+        st = body[i]
+        nxt = body[i + 1] if i + 1 < len(body) else None
+        new = None
+        if isinstance(st, ast.Assign) and len(st.targets) == 1 and isinstance(st.targets[0], ast.Name) and isinstance(nxt, ast.For) and not nxt.orelse:
+            x = st.targets[0].id
+            kind = None
+            if isinstance(st.value, ast.List) and not st.value.elts:
+                kind = 'list'
+            elif isinstance(st.value, ast.Dict) and not st.value.keys:
+                kind = 'dict'
+            elif isinstance(st.value, ast.Call) and isinstance(st.value.func, ast.Name) and st.value.func.id == 'set' and not st.value.args and not st.value.keywords:
+                kind = 'set'
+            if kind:
+                gens = []
+                cur = nxt
+                ok = True
+                leaf = None
+                while True:
+                    if cur.orelse or len(cur.body) != 1 or isinstance(cur, ast.AsyncFor):
+                        ok = False
+                        break
+                    g = ast.comprehension(target=cur.target, iter=cur.iter, ifs=[], is_async=0)
+                    gens.append(g)
+                    inner = cur.body[0]
+                    while isinstance(inner, ast.If) and not inner.orelse and len(inner.body) == 1:
+                        g.ifs.append(inner.test)
+                        inner = inner.body[0]
+                    if isinstance(inner, ast.For):
+                        cur = inner
+                        continue
+                    leaf = inner
+                    break
+                elt = key = None
+                if ok and leaf is not None:
+                    if kind in ('list', 'set') and isinstance(leaf, ast.Expr) and isinstance(leaf.value, ast.Call) and isinstance(leaf.value.func, ast.Attribute) \
+                            and isinstance(leaf.value.func.value, ast.Name) and leaf.value.func.value.id == x and leaf.value.func.attr == ('append' if kind == 'list' else 'add') \
+                            and len(leaf.value.args) == 1 and not leaf.value.keywords and not isinstance(leaf.value.args[0], ast.Starred):
+                        elt = leaf.value.args[0]
+                    elif kind == 'dict' and isinstance(leaf, ast.Assign) and len(leaf.targets) == 1 and isinstance(leaf.targets[0], ast.Subscript) \
+                            and isinstance(leaf.targets[0].value, ast.Name) and leaf.targets[0].value.id == x:
+                        key, elt = leaf.targets[0].slice, leaf.value
+                if elt is not None:
+                    used = False
+                    for g in gens:
+                        for e in [g.iter] + g.ifs:
+                            used = used or any(isinstance(n, ast.Name) and n.id == x for n in ast.walk(e))
+                    for e in [elt] + ([key] if key is not None else []):
+                        used = used or any(isinstance(n, ast.Name) and n.id == x for n in ast.walk(e))
+                    # loop targets must be plain names / tuples of names (comprehension targets are a scope of their own: they must not be read after the loop)
+                    tnames = {n.id for g in gens for n in ast.walk(g.target) if isinstance(n, ast.Name)}
+                    later = any(isinstance(n, ast.Name) and n.id in tnames for s2 in body[i + 2:] for n in ast.walk(s2))
+                    if not used and not later:
+                        if kind == 'list':
+                            comp = ast.ListComp(elt=elt, generators=gens)
+                        elif kind == 'set':
+                            comp = ast.SetComp(elt=elt, generators=gens)
+                        else:
+                            comp = ast.DictComp(key=key, value=elt, generators=gens)
+                        ast.copy_location(comp, nxt)
+                        new = ast.Assign(targets=st.targets, value=comp)
+                        ast.copy_location(new, st)
+                        new.end_lineno, new.end_col_offset = getattr(nxt, 'end_lineno', None), getattr(nxt, 'end_col_offset', None)
+        if new is not None:
+            out.append(new)
+            stats['N10'] = stats.get('N10', 0) + 1
+            i += 2
+        else:
+            out.append(st)
+            i += 1
+    return out
+
+
+_TRANSPARENT = (ast.Call, ast.BinOp, ast.UnaryOp, ast.Compare, ast.Attribute, ast.Subscript, ast.keyword, ast.Tuple, ast.List, ast.Set, ast.Dict,
+                ast.JoinedStr, ast.FormattedValue, ast.Starred)
+
+
+def _header_exprs(st) -> List[ast.AST]:
+    if isinstance(st, (ast.If, ast.While)):
+        return [st.test]
+    if isinstance(st, (ast.Return, ast.Expr)):
+        return [st.value] if st.value is not None else []
+    if isinstance(st, ast.Assign):
+        return [st.value] if all(isinstance(t, ast.Name) for t in st.targets) else []
+    if isinstance(st, (ast.AnnAssign,)):
+        return [st.value] if st.value is not None and isinstance(st.target, ast.Name) else []
+    if isinstance(st, ast.For):
+        return [st.iter]
+    return []
+
+
+def _single_read_position(header, name: str):
+    """If `name` is read exactly once in `header`, at a position that is evaluated unconditionally, exactly once, and before which no call is
+    evaluated, return the path of (parent, field, index) to it; else None."""
+    hits = []
+
+    def rec(n, trail, ok):
+        if isinstance(n, ast.Name) and n.id == name and isinstance(n.ctx, ast.Load):
+            hits.append((trail, ok))
+            return
+        for fld, val in ast.iter_fields(n):
+            vals = val if isinstance(val, list) else [val]
+            for i, c in enumerate(vals):
+                if not isinstance(c, ast.AST):
+                    continue
+                ok2 = ok and isinstance(n, _TRANSPARENT + (ast.BoolOp, ast.IfExp))
+                if isinstance(n, ast.BoolOp) and not (fld == 'values' and i == 0):
+                    ok2 = False
+                if isinstance(n, ast.IfExp) and fld != 'test':
+                    ok2 = False
+                rec(c, trail + [(n, fld, i if isinstance(val, list) else None)], ok2)
+    if isinstance(header, ast.Name) and header.id == name:
+        return []
+    rec(header, [], True)
+    if len(hits) != 1 or not hits[0][1]:
+        return None
+    trail = hits[0][0]
+    anc = {id(n) for n, _f, _i in trail}
+    # no other call may be evaluated in the header (its order relative to the moved expression would change)
+    for n in ast.walk(header):
+        if isinstance(n, (ast.Call, ast.Await, ast.Yield, ast.YieldFrom, ast.NamedExpr)) and id(n) not in anc:
+            return None
+        if isinstance(n, (ast.ListComp, ast.SetComp, ast.DictComp, ast.GeneratorExp, ast.Lambda)):
+            return None
+    return trail
+
+
+def _n9(fnode, known_locals: set, stats) -> None:
+    """N9: a *new* local bound once to an expression and read exactly once, in the very next statement, at a position evaluated
+    unconditionally and before any other call of that statement, is a temporary: the expression moves back to where it is read
+    (`ok = f(x)` / `if ok:`  ->  `if f(x):`)."""
+    nested = _nested_names(fnode)
+    binds: Dict[str, int] = {}
+    reads: Dict[str, int] = {}
+    for n in ast.walk(fnode):
+        if isinstance(n, ast.Name):
+            if isinstance(n.ctx, (ast.Store, ast.Del)):
+                binds[n.id] = binds.get(n.id, 0) + 1
+            else:
+                reads[n.id] = reads.get(n.id, 0) + 1
+    params = {a.arg for a in fnode.args.args + fnode.args.kwonlyargs + fnode.args.posonlyargs}
+
+    def do_block(body: List[ast.stmt]) -> List[ast.stmt]:
+        out: List[ast.stmt] = []
+        i = 0
+        while i < len(body):
+            st = body[i]
+            nxt = body[i + 1] if i + 1 < len(body) else None
+            done = False
+            if (nxt is not None and isinstance(st, ast.Assign) and len(st.targets) == 1 and isinstance(st.targets[0], ast.Name)):
+                a = st.targets[0].id
+                if a not in known_locals and a not in params and a not in nested and binds.get(a) == 1 and reads.get(a) == 1 and not isinstance(st.value, (ast.Constant, ast.Name)):
+                    for h in _header_exprs(nxt):
+                        tr = _single_read_position(h, a)
+                        if tr is None:
+                            continue
+                        if not tr:
+                            # the header *is* the name
+                            for fld in ('test', 'value', 'iter'):
+                                if getattr(nxt, fld, None) is h:
+                                    setattr(nxt, fld, st.value)
+                        else:
+                            parent, fld, idx = tr[-1]
+                            if idx is None:
+                                setattr(parent, fld, st.value)
+                            else:
+                                getattr(parent, fld)[idx] = st.value
+                        stats['N9'] = stats.get('N9', 0) + 1
+                        done = True
+                        break
+            if not done:
+                out.append(st)
+            i += 1
+        for st in out:
+            if isinstance(st, (ast.FunctionDef, ast.AsyncFunctionDef, ast.ClassDef)):
+                continue
+            for fld in ('body', 'orelse', 'finalbody'):
+                b = getattr(st, fld, None)
+                if isinstance(b, list) and b and isinstance(b[0], ast.stmt):
+                    setattr(st, fld, do_block(b))
+            for h in getattr(st, 'handlers', []) or []:
+                h.body = do_block(h.body)
+        return out
+    fnode.body = do_block(fnode.body)
+
+
+def normalise(tree: ast.AST, ref: dict = None) -> Dict[str, int]:
     stats: Dict[str, int] = {}
+    if ref:
+        def rec(body, prefix):
+            for n in body:
+                if isinstance(n, (ast.FunctionDef, ast.AsyncFunctionDef)):
+                    q = f'{prefix}.{n.name}' if prefix else n.name
+                    ent = ref.get(q)
+                    if ent is not None:
+                        _n8(n, {x[0] for x in ent.get('l', [])}, stats)
+                        _n9(n, {x[0] for x in ent.get('l', [])}, stats)
+                    rec(n.body, q)
+                elif isinstance(n, ast.ClassDef):
+                    rec(n.body, f'{prefix}.{n.name}' if prefix else n.name)
+                elif isinstance(n, (ast.If, ast.Try, ast.With, ast.For, ast.While)):
+                    for fld in ('body', 'orelse', 'finalbody'):
+                        rec(getattr(n, fld, []) or [], prefix)
+        rec(tree.body, '')
 
     def block(body: List[ast.stmt], nested: set, in_loop: bool, in_func: bool = True) -> List[ast.stmt]:
         for st in body:
@@ -118,6 +419,7 @@ def normalise(tree: ast.AST) -> Dict[str, int]:
         if in_func:
             body = [_n4(x, stats) for x in body]
             body = _n5(body, stats)
+            body = _n10(body, stats)
         body = [_n2(x, stats) for x in body]
         body = _n1(body, nested, stats)
         if in_loop and os.environ.get('VERIF_N3'):
